@@ -128,14 +128,31 @@ def canonPairs (tids : List Collected) : Pairs → Pairs
   | .nil => .nil | .cons k v r => .cons (canon tids k) (canon tids v) (canonPairs tids r)
 end
 
+/-- the value is encoded as the CBOR nil -/
+def encNil : CValue → Bool
+  | .none | .void | .nilv => true
+  | .some v => encNil v
+  | _ => false
+
+/-- what the CCF decoder returns for a CBOR nil at an optional static type (`newNilOptionalValue`):
+the nil nested as deep as the directly nested optional types -/
+def nilValueOf : CType → CValue
+  | .opt (.opt t) => .some (nilValueOf (.opt t))
+  | .ref _ t => nilValueOf t
+  | _ => .none
+
 mutual
-/-- a nil whose optional nesting is flatter than its static type, or an optional Void: CCF encodes
-these as the same CBOR nil as the fully nested nil -/
+/-- an optional value that is encoded as the CBOR nil but is not the nil the decoder reconstructs from
+the static type (a nil nested less deeply than the static type, a nil nested through a reference type,
+an optional Void) -/
 def nilAmbiguous : CValue → CType → Bool
-  | .none, .opt (.opt _) => true
-  | .some .void, _ => true
-  | .some v, .opt t => nilAmbiguous v t
-  | .some v, _ => nilAmbiguous v .nil
+  | .none, st => showValue (nilValueOf st) != "(none)"
+  | .some v, st =>
+    if encNil v then showValue (CValue.some v) != showValue (nilValueOf st)
+    else match st with
+      | .opt t => nilAmbiguous v t
+      | .ref _ (.opt t) => nilAmbiguous v t
+      | _ => nilAmbiguous v .nil
   | .arr t vs, _ => nilAmbiguousVs vs (elemType t)
   | .dict t kvs, _ => nilAmbiguousPs kvs (dictKeyType t) (dictValType t)
   | .comp (.comp _ _ _ fs _) vs, _ => nilAmbiguousFs vs fs
